@@ -79,7 +79,7 @@ pub fn c14(args: &Args) {
     for (tag, pred) in wants.iter() {
         for n in [512usize, 1024] {
             let mut found = 0;
-            let per = if thorough { 3 } else { 1 };
+            let per = if thorough { 8 } else { 1 };
             let mut ctr = 0u64;
             while found < per && ctr < 400_000 {
                 let s = format!("{}-{}-{}", tag, base, ctr).into_bytes();
@@ -92,7 +92,7 @@ pub fn c14(args: &Args) {
         }
     }
     // salt || message shaped inputs as sign/verify build them
-    for i in 0..(if thorough { 200 } else { 6 }) {
+    for i in 0..(if thorough { 1200 } else { 6 }) {
         let mut s = vec![0u8; 40 + (i * 7) % 300];
         rng.fill_bytes(&mut s);
         out.emit(h2p_event(&s, "salt-msg"));
